@@ -1045,11 +1045,26 @@ def purity_rules(prop):
             if fq in reach:
                 yield o
 
+    def narrow_rule(ctx):
+        # times, pitches and counts keep their precision: no narrow dtype (float32, int32, ...) is introduced anywhere in
+        # what the property's entry points reach, beyond the reviewed sites (NARROW_REVIEWED, per function)
+        reach = reach_from(ctx, files)
+        mods = sorted({q.split(".")[0] for q in reach})
+        k = 0
+        for o in rule_narrowdtype(prop + ".NARROW", tuple(m + ".py" for m in mods), min_sites=0)(ctx):
+            fq = o.construct.split(":")[0]
+            if fq in reach:
+                k += 1
+                yield o
+        if k == 0:
+            yield ob(prop + ".NARROW", "mir_eval/%s" % files[0], "%s:narrow-dtypes" % prop, True, "no narrow dtype in the %d functions reachable from the property's entry points" % len(reach))
+
+    extra = [] if prop == "C16" else [(prop + ".NARROW", 0, narrow_rule)]
     return [
         (prop + ".NOSTATE", 5, shared_reach("c15", "rule_globalstate", prop + ".NOSTATE", files)),
         (prop + ".ARGSAFE", 5, shared_reach("c15", "rule_nomut", prop + ".ARGSAFE", files)),
         (prop + ".INTINPUT", 0, dtype_rule),
-    ]
+    ] + extra
 
 
 BUNDLE_PARTS = ("rule_kwview", "rule_bundlekw", "rule_kwlive", "rule_keyparam", "rule_kwforward", "rule_filterimpl", "rule_decorated", "rule_roleargs", "rule_unpackorder", "rule_preproc", "rule_preproc_chord", "rule_paramlive", "rule_beattrim")
@@ -1135,7 +1150,7 @@ NARROW_REVIEWED = {
 }
 
 
-def rule_narrowdtype(rule, files):
+def rule_narrowdtype(rule, files, min_sites=1):
     def run(ctx):
         n = 0
         for mname in sorted(ctx.program.modules):
@@ -1143,6 +1158,7 @@ def rule_narrowdtype(rule, files):
             if mod.path.split("mir_eval/")[-1] not in files:
                 continue
             owner = {}
+            per_fn = {}
             for fn in ast.walk(mod.tree):
                 if isinstance(fn, ast.FunctionDef):
                     for x in ast.walk(fn):
@@ -1160,6 +1176,7 @@ def rule_narrowdtype(rule, files):
                     if txt in NARROW:
                         n += 1
                         fname = owner.get(node, "<module>")
+                        per_fn[(fname, txt)] = per_fn.get((fname, txt), 0) + 1
                         ok = (mname, fname, txt) in NARROW_REVIEWED
                         why_ok = NARROW_REVIEWED.get((mname, fname, txt))
                         if not ok and fname.startswith("_"):
@@ -1168,8 +1185,8 @@ def rule_narrowdtype(rule, files):
                             if callers and all((mname, c, txt) in NARROW_REVIEWED for c in callers):
                                 ok = True
                                 why_ok = NARROW_REVIEWED[(mname, sorted(callers)[0], txt)] + " (in a helper only that function calls)"
-                        yield ob(rule, "mir_eval/%s.py:%d" % (mname, getattr(v, "lineno", 1)), "%s.%s:dtype=%s@%d" % (mname, fname, txt, n), ok, ("reviewed narrow type: %s" % why_ok) if ok else "a count / score array is given the narrow type %s in %s: values beyond its range wrap around silently" % (txt, fname))
-        need(n >= 1, rule, "no narrow dtype site found (the reviewed ones vanished)")
+                        yield ob(rule, "mir_eval/%s.py:%d" % (mname, getattr(v, "lineno", 1)), "%s.%s:dtype=%s@%d" % (mname, fname, txt, per_fn[(fname, txt)]), ok, ("reviewed narrow type: %s" % why_ok) if ok else "an array is given the narrow type %s in %s: counts beyond its range wrap around, times and frequencies lose the digits a tolerance test depends on" % (txt, fname))
+        need(n >= min_sites, rule, "no narrow dtype site found (the reviewed ones vanished)")
 
     return run
 
